@@ -241,6 +241,7 @@ func (fc *FnCtx) Translate() (err error) {
 		fc.doBlock(b)
 	}
 	fc.checkUnmatched()
+	fc.checkChanInvs()
 	fc.checkFrame()
 	return nil
 }
